@@ -15,6 +15,9 @@ TABLES = [
     [b"TEST:A?", b"TEST[:SUB]:A?", b"TEST:SUB:A?", b"TESTing:A?", b"A?", b"[:TEST]:B?", b"B?"],            # overlapping
     [b"CHannel#:RANGe#:AUTO", b"CHannel#:RANGe#:AUTO?", b"CHannel#[:RANGe#]:LIMit", b"CHannel#", b"*OPC?", b"RANGe#:AUTO"],
     [b"A", b"A:B", b"A:B:C", b"A:B:C:D", b"B", b"C", b"D", b"*X"],
+    # an optional keyword between mandatory ones listed before an overlapping entry; trailing optional numeric keywords; one header, two entries
+    [b"[:SOURce]:VOLTage[:LEVel]:TRIGgered[:AMPLitude]", b"[:SOURce]:VOLTage[:LEVel][:IMMediate][:AMPLitude]", b"[:SOURce]:VOLTage:PROTection[:LEVel]",
+     b"TRIGger#[:SEQuence#][:LEVel#]", b"OUTPut[:STATe]", b"OUTPut#[:STATe]", b"*WAI"],
 ]
 HEADS = {
     0: [b"TEST:A?", b"test:a?", b":TEST:B?", b"B?", b"A?", b"SUB:C?", b"C?", b"D", b"TEST:SUB:D", b":TEST:SUB:C?", b"*IDN?", b"*idn?", b"*RST", b"II", b"ii", b"SYST:ERR?", b"SYSTEM:ERROR:NEXT?", b"ERR?", b"NEXT?", b"FOO", b"FOO:BAR?", b"TEST:A", b"TES:A?", b"*IDN"],
@@ -22,6 +25,8 @@ HEADS = {
     2: [b"TEST:A?", b"TEST:SUB:A?", b"SUB:A?", b"A?", b"B?", b"TEST:B?", b":B?", b"TESTING:A?", b"TESTI:A?", b":A?"],
     3: [b"CH1:RANG2:AUTO", b"CHAN:RANG:AUTO?", b"CHANNEL7:RANGE:AUTO", b"CHANNEL1234:RANGE5678:AUTO", b"CHANNEL99:RANGE11:LIMIT", b"RANG3:AUTO", b"AUTO", b"AUTO?", b"CH2:LIM", b"CHAN3:RANG4:LIM", b"LIM", b"CH5", b":CH", b"*OPC?", b"CH1:RANG2:AUTO:X"],
     4: [b"A", b"B", b"C", b"D", b":A", b"A:B", b":A:B", b"A:B:C", b"A:B:C:D", b"*X", b"E", b"a:b", b"c", b"d"],
+    5: [b"VOLT", b":VOLTage", b"VOLT:LEV", b"LEV", b"VOLT:TRIG", b"VOLT:LEV:TRIG:AMPL", b"SOUR:VOLT", b"VOLT:IMM", b"VOLT:LEV:IMM:AMPL", b"VOLT:PROT", b"PROT:LEV", b"TRIG", b"IMM", b"AMPL",
+        b"TRIG2", b"TRIG", b"TRIG2:SEQ3", b"TRIG2:LEV4", b"TRIG1:SEQ2:LEV3", b"SEQ5", b"LEV6", b"OUTP", b"OUTP2", b"OUTP:STAT", b"OUTP4:STAT", b"STAT", b"*WAI", b"VOLT:FOO"],
 }
 
 
